@@ -7,7 +7,9 @@
 use std::collections::HashMap;
 use std::hash::Hash;
 
-pub struct BfsResult<A> {
+pub struct BfsResult<A, S> {
+    /// every distinct state visited, in BFS order
+    pub all_states: Vec<S>,
     pub states: u64,
     pub transitions: u64,
     pub max_depth: usize,
@@ -19,7 +21,7 @@ pub struct BfsResult<A> {
 
 /// `step(state, action)`: Ok(Some(next)) = transition, Ok(None) = action not enabled,
 /// Err(msg) = the invariant failed on this transition.
-pub fn bfs<S, A, F>(init: Vec<S>, actions: &[A], max_depth: Option<usize>, mut step: F) -> BfsResult<A>
+pub fn bfs<S, A, F>(init: Vec<S>, actions: &[A], max_depth: Option<usize>, mut step: F) -> BfsResult<A, S>
 where
     S: Clone + Eq + Hash,
     A: Clone,
@@ -73,6 +75,7 @@ where
                         path.reverse();
                         return BfsResult {
                             states: states.len() as u64,
+                            all_states: states,
                             transitions,
                             max_depth: depth + 1,
                             fixpoint: false,
@@ -87,5 +90,5 @@ where
         }
         frontier = next;
     }
-    BfsResult { states: states.len() as u64, transitions, max_depth: depth, fixpoint, violation: None }
+    BfsResult { states: states.len() as u64, all_states: states, transitions, max_depth: depth, fixpoint, violation: None }
 }
